@@ -790,6 +790,10 @@ func (e *Enc) checkHeld(fr *Frame, st *State, mloc Val, mtype types.Type, write 
 		rheld := Select(e.heap(st, "G_rheld", ArraySort(SLoc, SBool)), mloc)
 		cond = Or(held, rheld)
 	}
+	// objects allocated by the function itself are not yet shared
+	if e.entry != nil {
+		cond = Or(cond, Val{app(">=", LRef(mloc).T, e.entry.next.T), SBool})
+	}
 	kind := "read"
 	if write {
 		kind = "write"
